@@ -217,6 +217,39 @@ fn one_blob(out: &mut Out, rng: &mut Rng, kind: Kind, pt_len: usize, full: bool)
             tamper_check(out, &p, kind, &pt, &blob, &t, "bit-flip", i);
         }
     }
+    // "every single-byte modification": all 255 other values for the four length-field bytes,
+    // and two random other values everywhere else (on top of +1 and the eight bit flips)
+    for i in 0..blob.len() {
+        if i < 4 {
+            for v in 0..=255u8 {
+                if v != blob[i] {
+                    let mut t = blob.clone();
+                    t[i] = v;
+                    tamper_check(out, &p, kind, &pt, &blob, &t, "byte-any", i);
+                }
+            }
+        } else if full || i % 5 == 0 {
+            for _ in 0..2 {
+                let v = rng.below(256) as u8;
+                if v != blob[i] {
+                    let mut t = blob.clone();
+                    t[i] = v;
+                    tamper_check(out, &p, kind, &pt, &blob, &t, "byte-any", i);
+                }
+            }
+        }
+    }
+    // two-byte edits of the length fields (values near the type's limits)
+    for (a, b) in [(0xffu8, 0xffu8), (0xf4, 0xff), (0xf3, 0xff), (0x00, 0x80), (0xff, 0x7f), (0x00, 0x00)] {
+        for base in [0usize, 2] {
+            let mut t = blob.clone();
+            t[base] = a;
+            t[base + 1] = b;
+            if t != blob {
+                tamper_check(out, &p, kind, &pt, &blob, &t, "length-field-pair", base);
+            }
+        }
+    }
     for l in 0..blob.len() {
         if full || l < 140 || l + 70 > blob.len() {
             tamper_check(out, &p, kind, &pt, &blob, &blob[..l], "truncate", l);
